@@ -17,7 +17,8 @@ def PREFILTER(o, m):
 RULE = ("the 913 official draft-07 cases first, then generated draft-07 documents (definitions, dependencies in both forms, items in "
         "both forms, additionalItems, $id-as-anchor, $ref with siblings) x 6 instances, roots declaring each supported and several "
         "unsupported $schema values, remote documents with and without their own $schema referenced from the root or from a "
-        "subschema; fan-in: one shared definition of failing-and-swallowed $ref alternatives applied 2..16 times at one instance location; "
+        "subschema; 6 %: such chains with drafts drawn to differ (draft-07 root, loaded documents declaring or inheriting 2020-12, and vice versa) "
+        "and a $ref with a sibling (not: {}, type, const, ...) at a subschema position of the loaded document (additionalProperties, items, ...); fan-in: one shared definition of failing-and-swallowed $ref alternatives applied 2..16 times at one instance location; "
         "~3 %: pairs (draft-07 document, the same document plus minContains / maxContains / unevaluatedItems / unevaluatedProperties / "
         "$dynamicRef — dangling or not, with or without $dynamicAnchor) x 9 instances, which must get the same outcome of Resolve and "
         "equal verdicts (keywords of later drafts are unknown keywords under draft-07). "
@@ -33,14 +34,26 @@ SCHEMA_VALUES = [None, gs.D2020_URI] + gs.D7_URIS + [
     "https://json-schema.org/draft/2020-12/schema#", "x"]
 
 
-def remote_case(rng):
+def remote_case(rng, mixed=False):
     """A draft-07 (or other) root whose $ref, at the root or in a subschema, loads a document that uses a
     draft-dependent construct (fragment-only $id = anchor in draft-07, error in 2020-12; items array +
-    additionalItems; dependencies)."""
+    additionalItems; dependencies; a $ref with siblings at any subschema position).
+    mixed: the drafts of root and loaded documents are drawn so that they mostly DIFFER (draft-07 root, loaded documents that
+    declare 2020-12 or inherit it from a 2020-12 intermediary, and the other way round), and the construct is a $ref with a sibling
+    (`not: {}` — with $ref the spelling of `false` plus a reference —, type, const, ...) at a random subschema position of the loaded
+    document (additionalProperties, items, properties, ...): whether the sibling counts is decided by the ROOT's draft."""
     rooturi = rng.choice(SCHEMA_VALUES[:4] + [None])
     own = rng.choice([None, None] + gs.D7_URIS + [gs.D2020_URI])
     kind = rng.choice(["idanchor", "itemsarray", "dependencies", "refsiblings"])
-    if kind == "idanchor":
+    if mixed:
+        rooturi = rng.choice(gs.D7_URIS + gs.D7_URIS + [gs.D2020_URI, None])
+        own = rng.choice([None, None, gs.D2020_URI, gs.D2020_URI, gs.D2020_URI] + gs.D7_URIS)
+        kind = "sibpos"
+    if kind == "sibpos":
+        _, sib_body, _ = _ref_sibling_body(rng, pos_w={"additionalProperties": 6, "items": 2, "properties": 2}, sib_w={0: 6, 1: 2})
+        target = rng.choice([Obj(), True, Obj([("type", "integer")]), Obj([("minLength", gs.Num("1"))]), False, Obj([("type", ["number", "null"])])])
+        body = [("definitions", Obj([("t", target)]))] + sib_body
+    elif kind == "idanchor":
         body = [("definitions", Obj([("t", Obj([("$id", "#foo"), ("type", "integer")]))])), ("$ref", "#foo")]
         if rng.random() < 0.5:
             body = [("definitions", Obj([("t", Obj([("$id", "#foo"), ("type", "integer")]))])),
@@ -61,7 +74,7 @@ def remote_case(rng):
     for h in range(hops):
         nxt = "http://x.test/r%d.json" % (h + 2)
         chain[-1][0] = nxt
-        link_own = rng.choice([None, None, None] + gs.D7_URIS + [gs.D2020_URI])
+        link_own = rng.choice([None, None, None] + gs.D7_URIS + [gs.D2020_URI] + ([gs.D2020_URI] * 3 if mixed else []))
         link_body = rng.choice([[("$ref", nxt)], [("allOf", [Obj([("$ref", nxt)])])]])
         chain.insert(len(chain) - 1, None)
         chain[-2] = ["http://x.test/r.json" if h == 0 else "http://x.test/r%d.json" % (h + 1), Obj(([("$schema", link_own)] if link_own else []) + link_body)]
@@ -81,19 +94,28 @@ def remote_case(rng):
     insts = [gs.Num("1"), "s", [gs.Num("1"), gs.Num("2")], [gs.Num("1")], Obj([("a", gs.Num("1"))]), Obj([("a", gs.Num("3")), ("b", None)]),
              Obj([("c", None)]), Obj([("p", gs.Num("1"))]), Obj([("p", "s")]), Obj([("p", [gs.Num("1"), "x"])]),
              Obj([("p", Obj([("a", gs.Num("5"))]))]), [[gs.Num("1"), "x"]], [Obj([("a", gs.Num("5"))])]]
+    if mixed:
+        insts += [Obj([("b", "s"), ("zz", gs.Num("1"))]), Obj([("p", Obj([("q", None)]))]), [Obj([("q", "s"), ("r", gs.Num("2"))])]]
     return {"op": "validate", "args": {"schema": root, "docs": chain, "insts": insts},
-            "meta": {"kw": 5, "remote": True, "hops": hops}}
+            "meta": {"kw": 5, "remote": True, "hops": hops, "mixed_sib": bool(mixed)}}
 
 
-def ref_sibling_case(rng):
-    """draft-07: a $ref object with a sibling that would make it unsatisfiable (or the `false` schema), at every kind of subschema
-    position; the siblings are ignored, so only the target decides."""
+def _weighted(rng, items, w):
+    pool = []
+    for i, x in enumerate(items):
+        pool += [x] * (w or {}).get(x if isinstance(x, str) else i, 1)
+    return rng.choice(pool)
+
+
+def _ref_sibling_body(rng, pos_w=None, sib_w=None):
+    """(target, body, position): the body holds `{"$ref": "#/definitions/t", <sibling>}` at one kind of subschema position.
+    pos_w / sib_w: optional weights (by position name / sibling index); the draws are uniform without them."""
     target = rng.choice([Obj(), True, Obj([("type", "integer")]), Obj([("minLength", gs.Num("1"))]), False])
-    sib = rng.choice([("not", Obj()), ("not", True), ("type", "null"), ("const", "never"), ("enum", []), ("maxProperties", gs.Num("0")),
-                      ("required", ["zz"]), ("maximum", gs.Num("-100")), ("allOf", [False]), ("additionalProperties", False)])
+    sib = _weighted(rng, [("not", Obj()), ("not", True), ("type", "null"), ("const", "never"), ("enum", []), ("maxProperties", gs.Num("0")),
+                          ("required", ["zz"]), ("maximum", gs.Num("-100")), ("allOf", [False]), ("additionalProperties", False)], sib_w)
     refobj = Obj([("$ref", "#/definitions/t"), sib] if rng.random() < 0.5 else [sib, ("$ref", "#/definitions/t")])
-    pos = rng.choice(["additionalProperties", "items", "additionalItems", "properties", "patternProperties", "contains", "propertyNames",
-                      "dependencies", "if", "allOf", "anyOf", "oneOf", "not", "root"])
+    pos = _weighted(rng, ["additionalProperties", "items", "additionalItems", "properties", "patternProperties", "contains", "propertyNames",
+                          "dependencies", "if", "allOf", "anyOf", "oneOf", "not", "root"], pos_w)
     body = {
         "additionalProperties": [("additionalProperties", refobj)],
         "items": [("items", refobj)],
@@ -107,6 +129,13 @@ def ref_sibling_case(rng):
         "allOf": [("allOf", [refobj])], "anyOf": [("anyOf", [refobj, False])], "oneOf": [("oneOf", [refobj])],
         "not": [("not", refobj)], "root": refobj.kvs,
     }[pos]
+    return target, body, pos
+
+
+def ref_sibling_case(rng):
+    """draft-07: a $ref object with a sibling that would make it unsatisfiable (or the `false` schema), at every kind of subschema
+    position; the siblings are ignored, so only the target decides."""
+    target, body, pos = _ref_sibling_body(rng)
     root = Obj([("$schema", rng.choice(gs.D7_URIS)), ("definitions", Obj([("t", target)]))] + body)
     insts = [Obj([("a", gs.Num("1"))]), Obj([("a", "s"), ("b", None)]), Obj(), [gs.Num("1"), "x"], [gs.Num("2")], gs.Num("3"), "str", None,
              Obj([("zz", gs.Num("1")), ("a", gs.Num("2"))]), [], Obj([("c", True)])]
@@ -277,10 +306,20 @@ def gen(rng, tier, n):
         if 0.33 <= r < 0.38:
             ops.append(fanin_case(rng))
             continue
+        if 0.38 <= r < 0.44:
+            # root and loaded documents of DIFFERENT drafts, a $ref with a sibling somewhere in the loaded document
+            ops.append(remote_case(rng, mixed=True))
+            continue
         if r < 0.33 and r >= 0.27:
             if rng.random() < 0.3:
                 from .. import gen_refs as _gr
                 ops.append({"op": "validate", "args": _gr.mixed_cycle(rng), "meta": {"kw": 4, "mixed": True}})
+                continue
+            if rng.random() < 0.25:
+                # draft-07 $id-as-anchor: an $id with a path AND a plain-name fragment defines no plain name in the enclosing resource
+                from .. import gen_refs as _gr
+                args, meta = _gr.d7_path_fragment_id(rng)
+                ops.append({"op": "validate", "args": args, "meta": dict(meta, kw=4)})
                 continue
             ops.append(ref_sibling_case(rng))
             continue
